@@ -47,6 +47,11 @@ def run_e2(res, tier):
                             cases.append({"prog": pid, "op": "remote_exec" if kind == "exec" else "remote_query", "part": label, "input": json.dumps(list(tup)),
                                           "ctx": ctx, "extra": {"fn": fn, "via": via, "borrowed": borrowed}})
                             exp.append((pid, label, disp, m, tup, addr, fs, via, borrowed))
+                            if kind == "query" and ti == 0 and addr == ADDRS[0]:
+                                # the same query issued from a chain whose custom query type differs from the target's
+                                cases.append({"prog": pid, "op": "remote_query", "part": label, "input": json.dumps(list(tup)),
+                                              "ctx": ctx, "extra": {"fn": fn, "via": via, "borrowed": borrowed, "foreign": True}})
+                                exp.append((pid, label, disp, m, tup, addr, fs, via, borrowed))
     # instantiate builders of the corpus contracts: argument tuples x setter sequences x salted / unsalted
     SETTERS = [[], ["label:L"], ["admin:adm"], ["funds:2"], ["label:L", "admin:adm", "funds:2"], ["funds:2", "admin:adm"], ["label:A", "label:B"], ["admin:x", "funds:1", "funds:3"]]
     icases, iexp = [], []
